@@ -19,7 +19,7 @@ func Run(c *vf.Check) {
 	gs := groups.All()
 	vf.Parallel(len(gs), func(i int) { runGroup(c, gs[i]) })
 	c.Finish("engine E/S: per group, seeds {O,B,g1(Pick),g2(Hash/Embed),dec(5B)}; level-1 closure under Add/Sub/Neg/Mul(s in S(q))/Mul(s,nil); "+
-		"level 2: all Add/Sub pairs over the closure R, Neg, Mul(s,x), associativity triples, (a+b)P, (a-b)P, (-a)P, a(bP), Mul(s,nil) vs Mul(s,B). "+
+		"0*P, 1*P, 2*P, (q-1)P with the scalar made by SetInt64/Zero/One/SetBytes on objects that held q-1, a picked or a decoded value before; Mul(s,x) and Mul(s,nil) for the 48 scalars k*lambda+d (lambda a cube root of unity mod q, k=1..4, d=-2..3) on the groups whose order admits the endomorphism split; level 2: all Add/Sub pairs over the closure R, Neg, Mul(s,x), associativity triples, (a+b)P, (a-b)P, (-a)P, a(bP), Mul(s,nil) vs Mul(s,B). "+
 		"Every API result is compared (Equal both ways + encoding) with the free-module model value recomputed with Point.Add only; all pairs of R: Equal<=>same vector<=>same bytes. "+
 		"non-trivial = no operand is the identity, no scalar in {0,1}, result vector differs from every operand vector; distinct by (group, expression)",
 		[]string{"generators obtained from Pick/Hash/Embed have no known discrete-log relation (model inequality => group inequality)",
@@ -139,6 +139,58 @@ func runGroup(c *vf.Check, g *groups.G) {
 			if v, ok := checked(func() fmod.V { return m.Mul(s, a) }, a); ok && (s.V.Cmp(big.NewInt(1)) > 0) {
 				R = append(R, v)
 			}
+		}
+		if g.MulNil {
+			checked(func() fmod.V { return m.MulBase(s) })
+		}
+	}
+	// the named scalars 0, 1, 2, q-1 made by the setters on scalar OBJECTS THAT HELD ANOTHER VALUE BEFORE (a reused
+	// variable, as in accumulator loops): 0*P = O, 1*P = P, 2*P = P+P, (q-1)P = -P whatever the object held
+	{
+		priors := []struct {
+			name string
+			f    func() kyber.Scalar
+		}{
+			{"fresh", func() kyber.Scalar { return g.Scalar() }},
+			{"held q-1", func() kyber.Scalar { return g.Scalar().SetInt64(-1) }},
+			{"held a picked value", func() kyber.Scalar { return g.Scalar().Pick(alpha.Stream("c01-prior-pick")) }},
+			{"held r1 (decoded)", func() kyber.Scalar { return m.Sc(alpha.Rand("r1", g.Order)) }},
+		}
+		setters := []struct {
+			name string
+			v    int64
+			f    func(s kyber.Scalar)
+		}{
+			{"SetInt64(0)", 0, func(s kyber.Scalar) { s.SetInt64(0) }}, {"Zero()", 0, func(s kyber.Scalar) { s.Zero() }},
+			{"SetInt64(1)", 1, func(s kyber.Scalar) { s.SetInt64(1) }}, {"One()", 1, func(s kyber.Scalar) { s.One() }},
+			{"SetInt64(2)", 2, func(s kyber.Scalar) { s.SetInt64(2) }}, {"SetInt64(-1)", -1, func(s kyber.Scalar) { s.SetInt64(-1) }},
+			{"SetBytes({1})", 1, func(s kyber.Scalar) { s.SetBytes([]byte{1}) }},
+		}
+		a := seeds[1]
+		if len(mulTargets) > 1 {
+			a = mulTargets[1]
+		}
+		for _, pr := range priors {
+			for _, st := range setters {
+				pr, st := pr, st
+				checked(func() fmod.V {
+					sc := pr.f()
+					st.f(sc)
+					val := new(big.Int).Mod(big.NewInt(st.v), g.Order)
+					return fmod.V{Name: fmt.Sprintf("Mul(%s on a scalar that %s, %s)", st.name, pr.name, a.Name), P: g.Point().Mul(sc, a.P), Vec: m.VMul(val, a.Vec)}
+				}, a)
+			}
+		}
+	}
+	// scalars around the small multiples of the cube roots of unity mod q (where an endomorphism split changes shape)
+	for _, s := range alpha.Endo(g.Order) {
+		s := s
+		for ti, a := range mulTargets {
+			if ti >= 2 && !c.Thorough() {
+				break
+			}
+			a := a
+			checked(func() fmod.V { return m.Mul(s, a) }, a)
 		}
 		if g.MulNil {
 			checked(func() fmod.V { return m.MulBase(s) })
